@@ -35,9 +35,13 @@ var specs = []qspec{
 	{"persist/sqlite/consensus.go", "rejectV2Contracts", "genReject2", "v2", "(height : Nat) "},
 }
 
-// Go argument expression -> Lean term / status constant
-func argTerm(e ast.Expr) (term string, status string, isV1Const bool) {
+// Go argument expression -> Lean term / status constant.  Heights are recognised by the TYPE of the
+// parameter they come from (a types.ChainIndex parameter's .Height; the function's uint64 parameter),
+// through local aliases (`height := index.Height`), not by the names the source happens to use.
+func (c *conv) argTerm(e ast.Expr) (term string, status string, isV1Const bool) {
 	switch x := e.(type) {
+	case *ast.ParenExpr:
+		return c.argTerm(x.X)
 	case *ast.SelectorExpr:
 		n := x.Sel.Name
 		if strings.HasPrefix(n, "V2ContractStatus") {
@@ -46,11 +50,22 @@ func argTerm(e ast.Expr) (term string, status string, isV1Const bool) {
 		if strings.HasPrefix(n, "ContractStatus") {
 			return "", strings.ToLower(strings.TrimPrefix(n, "ContractStatus")), true
 		}
-		if id, ok := x.X.(*ast.Ident); ok && id.Name == "index" && n == "Height" {
+		if id, ok := x.X.(*ast.Ident); ok && n == "Height" && (c.idxParams[id.Name] || (len(c.idxParams) == 0 && id.Name == "index")) {
 			return "H", "", false
 		}
 	case *ast.Ident:
-		switch x.Name {
+		if c.u64Params[x.Name] {
+			if c.lohi {
+				return "HI", "", false
+			}
+			return "height", "", false
+		}
+		if l, ok := c.locals[x.Name]; ok && c.depth < 4 {
+			c.depth++
+			defer func() { c.depth-- }()
+			return c.argTerm(l)
+		}
+		switch x.Name { // fallback: the names of the pinned source
 		case "revisionBroadcastHeight":
 			return "HI", "", false
 		case "height":
@@ -63,11 +78,16 @@ func argTerm(e ast.Expr) (term string, status string, isV1Const bool) {
 var tokRe = regexp.MustCompile(`\$\d+|\?|<>|!=|<=|>=|=|<|>|\(|\)|[A-Za-z_][A-Za-z_0-9.]*`)
 
 type conv struct {
-	ver    string
-	args   []ast.Expr
-	next   int
-	notes  []string
-	hasElm bool
+	idxParams map[string]bool     // parameters of type types.ChainIndex
+	u64Params map[string]bool     // parameters of type uint64
+	locals    map[string]ast.Expr // locals defined once by `x := expr`
+	lohi      bool
+	depth     int
+	ver       string
+	args      []ast.Expr
+	next      int
+	notes     []string
+	hasElm    bool
 }
 
 func (c *conv) param(tok string) ast.Expr {
@@ -118,7 +138,7 @@ func leanOp(op string) string {
 }
 
 func (c *conv) numParam(e ast.Expr, lohi bool) string {
-	t, _, _ := argTerm(e)
+	t, _, _ := c.argTerm(e)
 	switch t {
 	case "H":
 		if lohi {
@@ -175,7 +195,7 @@ func (c *conv) atom(t []string, lohi bool) (string, int) {
 	case cn == "formation_confirmed":
 		return "c.confirmed", 1
 	case cn == "contract_status" && (at(1) == "<>" || at(1) == "!=" || at(1) == "="):
-		_, st, v1c := argTerm(c.param(at(2)))
+		_, st, v1c := c.argTerm(c.param(at(2)))
 		if st == "" {
 			break
 		}
@@ -265,7 +285,43 @@ func main() {
 				fd = x
 			}
 		}
-		c := &conv{ver: sp.ver}
+		c := &conv{ver: sp.ver, idxParams: map[string]bool{}, u64Params: map[string]bool{}, locals: map[string]ast.Expr{}, lohi: strings.Contains(sp.params, "lo hi")}
+		if fd != nil && fd.Type.Params != nil {
+			for _, f := range fd.Type.Params.List {
+				tn := ""
+				switch t := f.Type.(type) {
+				case *ast.SelectorExpr:
+					tn = t.Sel.Name
+				case *ast.Ident:
+					tn = t.Name
+				}
+				for _, nm := range f.Names {
+					switch tn {
+					case "ChainIndex":
+						c.idxParams[nm.Name] = true
+					case "uint64":
+						c.u64Params[nm.Name] = true
+					}
+				}
+			}
+			assigned := map[string]int{}
+			ast.Inspect(fd.Body, func(n ast.Node) bool {
+				if as, ok := n.(*ast.AssignStmt); ok && len(as.Lhs) == 1 && len(as.Rhs) == 1 {
+					if id, ok := as.Lhs[0].(*ast.Ident); ok {
+						assigned[id.Name]++
+						if as.Tok == token.DEFINE {
+							c.locals[id.Name] = as.Rhs[0]
+						}
+					}
+				}
+				return true
+			})
+			for n, k := range assigned {
+				if k != 1 {
+					delete(c.locals, n)
+				}
+			}
+		}
 		body := "false"
 		if fd == nil {
 			c.notes = append(c.notes, "function not found")
